@@ -104,6 +104,8 @@ type run struct {
 	pendingAtEnd  map[string]time.Duration
 	endAt         time.Duration
 	logAtEnd      int
+	upds          map[string]*setec.Updater[string]
+	updErr        []string
 	teardown      bool
 }
 
@@ -185,7 +187,7 @@ func (sc *scen) harness(props map[string]bool, out *[]violation) func() *sched.H
 		var r *run
 		return &sched.Harness{
 			Setup: func(x *sched.Exec) {
-				r = &run{sc: sc, x: x, svc: NewSvc(), cache: &HCache{}, handles: map[string]setec.Secret{}, startup: map[string]string{}, cancels: map[string]context.CancelFunc{}, secretNil: map[string]bool{}, pending: map[string]time.Duration{}}
+				r = &run{sc: sc, x: x, svc: NewSvc(), cache: &HCache{}, handles: map[string]setec.Secret{}, startup: map[string]string{}, cancels: map[string]context.CancelFunc{}, secretNil: map[string]bool{}, pending: map[string]time.Duration{}, upds: map[string]*setec.Updater[string]{}}
 				x.Data = r
 				x.UseTime = sc.UseTime
 				x.MapOrder = sc.MapOrder
@@ -475,6 +477,25 @@ func (r *run) act(tn string, ctx context.Context, a string) {
 		r.mu.Lock()
 		r.looks = append(r.looks, rec)
 		r.mu.Unlock()
+	case "upd":
+		u, err := setec.NewUpdater(ctx, r.st, name, func(b []byte) (string, error) { return string(b), nil })
+		r.mu.Lock()
+		if err != nil {
+			r.updErr = append(r.updErr, fmt.Sprintf("%s: NewUpdater(%q): %v", tn, name, err))
+		} else {
+			r.upds[tn+":"+name] = u
+		}
+		r.mu.Unlock()
+	case "updget":
+		r.mu.Lock()
+		u := r.upds[tn+":"+name]
+		r.mu.Unlock()
+		if u != nil {
+			v := u.Get()
+			if !r.svc.Served[name][v] && r.startup[name] != v {
+				r.fail("C15", "updater-unserved-value", "%s: Updater.Get for %q returned %q, never served", tn, name, v)
+			}
+		}
 	case "sleep":
 		d, _ := time.ParseDuration(name)
 		time.Sleep(d)
@@ -488,6 +509,13 @@ func (r *run) act(tn string, ctx context.Context, a string) {
 
 // checkConverged: after a clean poll every name in the store is at the service's active version, and so is the cache.
 func (r *run) checkConverged() {
+	for k, u := range r.upds {
+		_, n, _ := strings.Cut(k, ":")
+		_, want, _ := r.svc.Active(n)
+		if got := u.Get(); got != want {
+			r.fail("C15", "updater-missed-update", "%s: after a clean poll with a quiet service the updater's Get returns %q, newest installed bytes are %q", k, got, want)
+		}
+	}
 	d := r.st.VerifDump()
 	doc, err := parseCache(r.cache.Data)
 	if err != nil {
@@ -619,6 +647,13 @@ func (r *run) judge() {
 		calls := map[string]int{}
 		for _, l := range r.looks {
 			calls[l.name]++
+		}
+		for _, acts := range r.sc.Threads {
+			for _, a := range acts {
+				if n, ok := strings.CutPrefix(a, "upd:"); ok {
+					calls[n]++ // NewUpdater on an unknown name performs a lookup too
+				}
+			}
 		}
 		for n, c := range calls {
 			if cnt[n] > c {
